@@ -6,8 +6,16 @@
   mirrors of fft/*.c), which the correspondence check runs bit-exact against the real functions on every run.
 
   `rval x = val(low n limbs) + B^n · (signed top limb)`, `pmod n = B^n + 1`.
-  `TopSmall x`: the signed top limb lies strictly between ±2^62 — what the butterflies need so that the sum
-  or difference of two top limbs does not overflow a signed limb.
+  Top-limb hypotheses (all far beyond what the transforms produce — their top limbs stay within a few units):
+    `TopSmall x`  signed top limb strictly between ±2^62: the sum or difference of two top limbs does not overflow;
+    `Top61 x`     in [−2^61, 2^61);   `TopTiny x`  in [−2^59, 2^59)  (the √2 paths chain several operations).
+
+  Theorems:  normmod_val · mul_2expmod_val · div_2expmod_val · adjust_val · butterfly_val · ifft_butterfly_val ·
+    split_bits_val · combine_bits_eval (+ rval_of_small) · split_combine_id · mulmod_2expp1_basecase_val ·
+    mulmod_Bexpp1_val · sqrt2_sq · adjust_sqrt2_val · butterfly_sqrt2_val · ifft_butterfly_sqrt2_val ·
+    sqrt2_twiddle_inverse.
+  Not proved here (models exist and are run bit-exact against the library): mpir_butterfly_lshB/rshB with a
+  non-zero first shift x and the MFA twiddle butterflies built on them; the transforms themselves.
 -/
 import MpirProofs.Lemmas.FftRingBfly
 import MpirProofs.Lemmas.FftRingCombine
